@@ -59,6 +59,9 @@ def _flatten(l):
     for o in l:
         if o[0] == "sf":  # store immediately followed by a fetch (makes cache fills frequent)
             out += [["store", o[1]], ["fetch", o[1]]]
+        elif o[0] == "aba":  # a path committed to key A, then B, then A again, then queried
+            p, ka, kb = o[1], o[2], o[3]
+            out += [["sync", {p: ka}], ["sync", {p: kb}], ["sync", {p: ka}], ["paths", [p]]]
         else:
             out.append(list(o))
     return out
@@ -76,6 +79,8 @@ def ops_strategy():
         st.tuples(st.just("store"), key),
         st.tuples(st.just("sf"), key),
         st.tuples(st.just("sf"), key),
+        st.tuples(st.just("aba"), st.sampled_from(PATHS), key, key),
+        st.tuples(st.just("paths"), st.permutations(PATHS).map(lambda l: list(l)[:2])),
         st.tuples(st.just("sync"), st.dictionaries(st.sampled_from(PATHS), key, min_size=1, max_size=2)),
         st.tuples(st.just("paths"), st.lists(st.sampled_from(PATHS), min_size=1, max_size=2)),
     )
@@ -153,7 +158,8 @@ def check_case(case, ev=None, scratch=None):
                 d = OrderedDict(sorted(o[1].items()))
                 a, b = call(lambda: wrapped.sync_paths(d)), call(lambda: bare.sync_paths(d))
             elif kind == "paths":
-                a, b = call(lambda: dict(wrapped.fetch_paths(list(o[1])))), call(lambda: dict(bare.fetch_paths(list(o[1]))))
+                # the answer is an ordered mapping: compared with its order
+                a, b = call(lambda: list(wrapped.fetch_paths(list(o[1])).items())), call(lambda: list(bare.fetch_paths(list(o[1])).items()))
             else:
                 raise common.HarnessError(kind)
             if a != b:
